@@ -292,3 +292,57 @@ func VH_C20_reconfigured() {
 	}
 	vAssert(attempts == 2, "second-run-retried")
 }
+
+// per item inside a batch: no wait after an item's last attempt and none before the next item's
+// first - item 0 uses up its budget (with waits between its attempts), item 1 then starts at the
+// very (virtual) instant item 0's last attempt ended
+func VH_C20_batchNextItem() {
+	maxN := vParam("N", 3)
+	N := vNondet[int]("N")
+	vAssume(1 <= N && N <= maxN)
+	N = vConcrete(N)
+	vUnwind(maxN + 6)
+	w := vNondet[time.Duration]("w")
+	vAssume(w > 0 && w <= 1<<40)
+	var lastEnd0, first1, prev time.Duration
+	attempts := [2]int{}
+	b := NewBatchNode().WithMaxRetries(N).WithWait(w).WithBatchConcurrency(vChoice("concurrency", 2)).
+		WithPrepFunc(func(ctx context.Context, s *SharedStore) ([]Result, error) {
+			return []Result{NewResult(100), NewResult(101)}, nil
+		}).
+		WithExecFunc(func(ctx context.Context, item Result) (Result, error) {
+			k := bIndex(item)
+			var err error
+			vMon(func() {
+				now := vNow()
+				attempts[k]++
+				if k == 0 {
+					if attempts[0] > 1 {
+						vAssert(now-prev >= w, "at-least-w-between-attempts")
+					}
+					prev, lastEnd0 = now, now
+					err = vNewErr()
+				} else if attempts[1] == 1 {
+					first1 = now
+				}
+			})
+			return item, err
+		})
+	if vNondet[bool]("recoveringFallback") {
+		WithExecFallbackFunc(func(p any, err error) (any, error) { return 1, nil }).apply(b.CustomNode)
+	}
+	var postAt time.Duration
+	b.WithPostFunc(func(ctx context.Context, s *SharedStore, items, results []Result) (Action, error) {
+		vMon(func() { postAt = vNow() })
+		return "x", nil
+	})
+	if _, err := Run(vNewCtx(), b, NewSharedStore()); err != nil {
+		return
+	}
+	vAssert(attempts[0] == N && attempts[1] == 1, "failing-item-gets-exactly-N-attempts")
+	vAssert(first1 == lastEnd0, "no-wait-before-the-next-items-first-attempt")
+	vAssert(postAt == lastEnd0, "no-wait-after-last-attempt")
+	if N > 1 {
+		vCover("next-item-after-an-exhausted-budget")
+	}
+}
